@@ -194,6 +194,21 @@ def rule_keep_load(ctx, prop):
                     tt_peek.add(b)
                 elif any(c.endswith("::next") for c in rc):
                     tt_head.add(b)
+        # `iter.peek().map(|t| t.token_type())` / `iter.next().map(..)`: the mapped Option is the token type of the element
+        for b, t in f.calls():
+            if re.search(r"Option::<.*>::map$|Option::<T>::map$", callee(t)) and len(t["args"]) == 2:
+                pf = None
+                for r in provenance(f, t["args"][1], through=None):
+                    if r[0] == "agg" and r[1].startswith("closure "):
+                        pf = prog.fn(f.crate, r[1][8:])
+                if pf is None or not any(callee(t2).endswith("Token::token_type") or callee(t2).endswith("Token::token_kind")
+                                         for _, t2 in pf.calls()) or len(list(pf.calls())) != 1:
+                    continue
+                rc = _recv_calls(f, t)
+                if any(c.endswith("::peek") for c in rc):
+                    tt_peek.add(b)
+                elif any(c.endswith("::next") for c in rc):
+                    tt_head.add(b)
         rep.anchor(bool(tt_head), "token_type() of the loop's trivia token", cfg)
         n_iter = 0
         bad = {}
